@@ -91,113 +91,6 @@ def _emit_cost(prog, rn, mn, mx):
     return ip.cost, pushes
 
 
-def _accum_sites(f):
-    """Stores of the form x = x * 10 + digit.  -> [(store node, target key, guarded bound or None)]"""
-    out = []
-    for n, lv, op, rhs in stores(f.body):
-        if op != "=" or rhs is None:
-            continue
-        kr = key(rhs)
-        kl = key(lv)
-        if "*10)" in kr and kl in kr:
-            bound = None
-            for cid, t in f.cfg.facts_at(n["id"]):
-                c = f.nodes.get(cid)
-                if c is None:
-                    continue
-                c, t = negate_truth(c, t)
-                if c["k"] == "bin" and key(c["l"]) == kl and cval(c["r"]) is not None:
-                    if (c["op"] == "<=" and t) or (c["op"] == ">" and not t):
-                        bound = cval(c["r"])
-                    if (c["op"] == "<" and t) or (c["op"] == ">=" and not t):
-                        bound = cval(c["r"]) - 1
-            out.append((n, kl, bound))
-    return out
-
-
-def _domain(prog):
-    """Value ranges of (mincnt, maxcnt) that rnode_atom can leave on a node it returns,
-    before the rejection tests: ((lo_min, hi_min), (lo_max, hi_max)); None = unbounded."""
-    f = prog.func("rnode_atom", file="regex.c")
-    INF = None
-    rng = {"mincnt": [1, 1], "maxcnt": [1, 1]}   # rnode_make
-
-    def widen(fld, lo, hi):
-        r = rng[fld]
-        r[0] = INF if (lo is INF or r[0] is INF) else min(r[0], lo)
-        r[1] = INF if (hi is INF or r[1] is INF) else max(r[1], hi)
-
-    # helpers that read a count: functions whose return is an accumulation variable
-    def helper_range(g):
-        acc = _accum_sites(g)
-        if not acc:
-            return None
-        lo, hi = 0, 0
-        for n, kl, bound in acc:
-            if bound is None:
-                return (INF, INF)
-            hi = max(hi, bound * 10 + 9)
-        return (lo, hi)
-
-    acc = {id(n): (kl, b) for n, kl, b in _accum_sites(f)}
-
-    def vrange(r, n=None):
-        r = strip_casts(r)
-        v = cval(r)
-        if v is not None:
-            return (v, v)
-        if n is not None and id(n) in acc:
-            b = acc[id(n)][1]
-            return (INF, INF) if b is None else (0, b * 10 + 9)
-        if r["k"] == "member" and r["field"] in rng:
-            return tuple(rng[r["field"]])
-        if r["k"] == "cond":
-            a, b = vrange(r["t"]), vrange(r["f"])
-            lo = INF if (a[0] is INF or b[0] is INF) else min(a[0], b[0])
-            hi = INF if (a[1] is INF or b[1] is INF) else max(a[1], b[1])
-            return (lo, hi)
-        if is_call(r) and r.get("fn"):
-            g = prog.resolve(f, r["fn"])
-            hr = helper_range(g) if g is not None else None
-            return hr if hr is not None else (INF, INF)
-        return (INF, INF)
-
-    for n, lv, op, rhs in stores(f.body):
-        if lv["k"] != "member" or lv["field"] not in rng or op != "=":
-            continue
-        lo, hi = vrange(rhs, n)
-        widen(lv["field"], lo, hi)
-    # `maxcnt = mincnt` copies must see the final range of mincnt
-    for n, lv, op, rhs in stores(f.body):
-        r = strip_casts(rhs) if rhs else None
-        if lv["k"] == "member" and lv["field"] in rng and r is not None and r["k"] == "member" \
-                and r["field"] in rng:
-            widen(lv["field"], rng[r["field"]][0], rng[r["field"]][1])
-    # rejection predicate: conditions whose true edge frees the node and returns NULL
-    rejects = []
-    for s in f.walk():
-        if s["k"] != "if" or s.get("t") is None:
-            continue
-        direct = s["t"]["body"] if s["t"]["k"] == "block" else [s["t"]]
-        if any(is_call(x, "rnode_free") for x in direct) and any(x["k"] == "return" for x in direct):
-            # only tests of the counts matter here (a test of the pattern text rejects for
-            # another reason and admits every count)
-            if any(x["k"] == "member" and x["field"] in rng for x in walk(s["c"])):
-                rejects.append(s["c"])
-    return rng, rejects
-
-
-def _eval_reject(prog, f, conds, mn, mx):
-    ip = Interp(prog, fields={"mincnt": mn, "maxcnt": mx})
-    for c in conds:
-        try:
-            if ip.truth(ip.expr(f, c, {}, 0)):
-                return True
-        except Unsupported:
-            raise
-    return False
-
-
 _R1_CTX = None
 
 
@@ -206,19 +99,76 @@ ASSIGN_OPS = ("=", "+=", "-=", "*=", "/=", "%=", "|=", "&=", "^=", "<<=", ">>=")
 _R1_LOCK = threading.Lock()
 
 
-def _r1_row(mn, ctxt=None):
-    """one row of the (min, max) grid; returns (cells, first bad cell per kind, jmpend overflow)
-    or an error string"""
-    prog, atom, rejects, kinds, cols, NREPS = ctxt or _R1_CTX
+def _typed_forms(vals):
+    """pattern strings that exercise the repetition syntax: (pattern bytes, description)"""
+    out = [b"a", b"a*", b"a+", b"a?"]
+    pos = [v for v in vals if v >= 0]
+    for m in pos:
+        out.append(b"a{%d}" % m)
+        out.append(b"a{%d,}" % m)
+        for n in pos:
+            out.append(b"a{%d,%d}" % (m, n))
+    # digit strings that overflow an int accumulator
+    for big in (2147483647, 2147483648, 4294967291, 4294967296 + 3, 99999999999, 10 ** 19 + 5):
+        out += [b"a{%d}" % big, b"a{1,%d}" % big, b"a{%d,}" % big, b"a{%d,2}" % big]
+    return out
+
+
+def _admit_chunk(args):
+    prog, pats = args if len(args) == 2 else (_R11_PROG, args[0])
+    cells = {}
+    for pat in pats:
+        try:
+            r, rest, err = _parse_probe(prog, pat)
+        except OverRead:
+            continue
+        except Unsupported as e:
+            return "parser not evaluable on %r: %s" % (pat, e)
+        if not isinstance(r, dict) or rest != len(pat) or err:
+            continue
+        mn, mx = r.get("mincnt"), r.get("maxcnt")
+        if not isinstance(mn, int) or not isinstance(mx, int):
+            return "parser leaves a non-integer count on %r" % pat
+        cells.setdefault((mn, mx), pat)
+    return cells
+
+
+def admitted_cells(prog, vals):
+    """(min, max) pairs the parser produces and accepts, with a pattern that yields each.  The
+    parser itself is evaluated (abstractly) on every typed form, so its rejection tests may be
+    spelled, split or moved into helpers freely."""
+    global _R11_PROG
+    pats = _typed_forms(vals)
+    results = []
+    if len(pats) > 3000:
+        import multiprocessing as mp
+        chunks = [pats[i::32] for i in range(32)]
+        with _R1_LOCK:
+            _R11_PROG = prog
+            try:
+                with mp.get_context("fork").Pool(min(16, mp.cpu_count())) as pool:
+                    results = pool.map(_admit_chunk, [(c,) for c in chunks])
+            except (OSError, ValueError):
+                results = [_admit_chunk((prog, c)) for c in chunks]
+    else:
+        results = [_admit_chunk((prog, pats))]
+    cells = {}
+    for r in results:
+        if isinstance(r, str):
+            raise AnalysisBroken(r)
+        for k_, v_ in r.items():
+            cells.setdefault(k_, v_)
+    return cells
+
+
+def _r1_cells(args):
+    """cost comparison on a list of admitted cells"""
+    cl, ctxt = args if len(args) == 2 else (args[0], _R1_CTX)
+    prog, kinds, NREPS = ctxt
     cells = 0
     bad = {}
     jm_bad = None
-    for mx in cols:
-        try:
-            if _eval_reject(prog, atom, rejects, mn, mx):
-                continue
-        except Unsupported as e:
-            return "rejection test not evaluable: %s" % e
+    for mn, mx in cl:
         for rn in kinds:
             cells += 1
             try:
@@ -236,14 +186,13 @@ def _r1_row(mn, ctxt=None):
     return cells, bad, jm_bad
 
 
+
 def rule_R1(ctx):
     ctx.begin("R1", floor=3, what="(kind, min, max) cells of estimate vs emitter")
     prog = ctx.prog
     kinds = _rn_kinds(prog)
     if len(kinds) != 4:
         raise AnalysisBroken("expected 4 node kinds compared with ->rn, found %s" % kinds)
-    atom = prog.func("rnode_atom", file="regex.c")
-    rng, rejects = _domain(prog)
     NREPS = None
     emit = prog.func("rnode_emit", file="regex.c")
     for n in emit.walk():
@@ -251,38 +200,35 @@ def rule_R1(ctx):
             NREPS = n.get("arr_n")
     if NREPS is None:
         raise AnalysisBroken("rnode_emit: jmpend array not found")
-    # grid
     full = ctx.tier == "thorough"
-    hi_lim = NREPS + 1
-    for fld in ("mincnt", "maxcnt"):
-        if rng[fld][1] is not None:
-            hi_lim = max(hi_lim, min(rng[fld][1], NREPS + 1))
     if full:
-        vals = list(range(-3, NREPS + 3))
+        vals = list(range(0, NREPS + 3))
     else:
-        vals = list(range(-3, 13)) + list(range(NREPS // 2 - 2, NREPS // 2 + 3)) + list(range(NREPS - 4, NREPS + 3))
-
-    def in_range(v, r):
-        return (r[0] is None or v >= r[0]) and (r[1] is None or v <= r[1])
-    cells = 0
-    bad = {}
-    jm_bad = None
-    rows = [mn for mn in vals if in_range(mn, rng["mincnt"])]
-    cols = [mx for mx in vals if in_range(mx, rng["maxcnt"])]
+        vals = list(range(0, 13)) + list(range(NREPS // 2 - 2, NREPS // 2 + 3)) + list(range(NREPS - 4, NREPS + 3))
+    # the admitted domain: what the parser, evaluated on every typed repetition form (and on
+    # digit strings that overflow), produces and accepts
+    adm = admitted_cells(prog, vals)
+    if len(adm) < 20:
+        raise AnalysisBroken("only %d admitted (min, max) pairs" % len(adm))
+    cl = sorted(adm)
     global _R1_CTX
-    ctxt = (prog, atom, rejects, kinds, cols, NREPS)
+    ctxt = (prog, kinds, NREPS)
     results = []
-    if full and len(rows) > 16:
+    if full and len(cl) > 200:
         import multiprocessing as mp
+        chunks = [cl[i::32] for i in range(32)]
         with _R1_LOCK:          # the forked workers read the tuple from this module global
             _R1_CTX = ctxt
             try:
                 with mp.get_context("fork").Pool(min(16, mp.cpu_count())) as pool:
-                    results = pool.map(_r1_row, rows, chunksize=4)
+                    results = pool.map(_r1_cells, [(c,) for c in chunks])
             except (OSError, ValueError):
-                results = [_r1_row(mn, ctxt) for mn in rows]
+                results = [_r1_cells((c, ctxt)) for c in chunks]
     else:
-        results = [_r1_row(mn, ctxt) for mn in rows]
+        results = [_r1_cells((cl, ctxt))]
+    cells = 0
+    bad = {}
+    jm_bad = None
     for res in results:
         if isinstance(res, str):
             raise AnalysisBroken(res)
@@ -292,66 +238,36 @@ def rule_R1(ctx):
             bad.setdefault(k_, v_)
         if j_ and jm_bad is None:
             jm_bad = j_
-    if cells < 20:
-        raise AnalysisBroken("only %d admitted cells" % cells)
-    # boundary: if the lowest grid value is admitted the domain is unbounded below there
+    sh = lambda b_: adm.get((b_[1], b_[2]), b"?").decode("latin-1")
     for kind, (rn, mn, mx, C, E) in sorted(bad.items()):
         construct = {"negative count": "estimate covers the emitter: negative repetition count admitted",
                      "inverted bounds": "estimate covers the emitter: inverted bounds {m,n} with n < m admitted",
                      "other": "estimate covers the emitter"}[kind]
         ctx.violation("rnode_count", construct,
-                      "for node kind %r with {%d,%d} rnode_count gives %r but rnode_emit inserts %r "
-                      "instructions: the program overflows its allocation" % (
-                          chr(rn) if rn else "atom", mn, mx, C, E))
+                      "the pattern %s is accepted with {%d,%d}; for node kind %r rnode_count gives %r but "
+                      "rnode_emit inserts %r instructions: the program overflows its allocation" % (
+                          sh((rn, mn, mx)), mn, mx, chr(rn) if rn else "atom", C, E))
     if not bad:
         for rn in kinds:
             ctx.ok("rnode_count", "kind %r: estimate >= emitted instructions on %d admitted "
-                   "(min,max) cells (%s grid, ranges min %s max %s)" % (
-                       chr(rn) if rn else "atom", cells // len(kinds), "full" if full else "reduced",
-                       rng["mincnt"], rng["maxcnt"]))
+                   "(min,max) pairs (%s grid of typed forms, parser evaluated per form)" % (
+                       chr(rn) if rn else "atom", len(adm), "full" if full else "reduced"))
     if jm_bad:
         ctx.violation("rnode_emit", "jmpend pushes fit",
-                      "kind %r with {%d,%d} pushes %d entries onto jmpend[%d]" % (
-                          jm_bad[0], jm_bad[1], jm_bad[2], jm_bad[3], NREPS))
+                      "the pattern %s is accepted with {%d,%d}; kind %r pushes %d entries onto jmpend[%d]" % (
+                          sh(jm_bad), jm_bad[1], jm_bad[2], jm_bad[0], jm_bad[3], NREPS))
     else:
-        ctx.ok("rnode_emit", "jmpend pushes <= %d on every admitted cell" % NREPS)
-    # unboundedness: an admitted unbounded side must be flat or improving
-    for fld in ("mincnt", "maxcnt"):
-        if rng[fld][0] is None:
-            # is the lowest grid value admitted?
-            lo = vals[0]
-            mn, mx = (lo, 1) if fld == "mincnt" else (1, lo)
-            try:
-                rej = _eval_reject(prog, atom, rejects, mn, mx)
-            except Unsupported:
-                rej = False
-            if not rej:
-                if fld == "mincnt":
-                    ctx.violation("rnode_atom", "repetition count cannot be negative",
-                                  "the repetition digits are accumulated without bound, so the "
-                                  "count can wrap negative, and no test rejects min < 0")
-                else:
-                    # all negative max mean `unbounded`: flat -- checked by two points
-                    c1 = _count_cost(prog, kinds[0], 1, -1)
-                    c2 = _count_cost(prog, kinds[0], 1, -3)
-                    e1 = _emit_cost(prog, kinds[0], 1, -1)[0]
-                    e2 = _emit_cost(prog, kinds[0], 1, -3)[0]
-                    if repr(c1) == repr(c2) and repr(e1) == repr(e2):
-                        ctx.ok("rnode_atom", "all negative max counts mean `unbounded` alike")
-                    else:
-                        ctx.violation("rnode_atom", "negative max count",
-                                      "cost differs between max=-1 and max=-3")
-        if rng[fld][1] is None:
-            hi = vals[-1]
-            mn, mx = (hi, -1) if fld == "mincnt" else (0, hi)
-            try:
-                rej = _eval_reject(prog, atom, rejects, mn, mx)
-            except Unsupported:
-                rej = False
-            if not rej:
-                ctx.violation("rnode_atom", "repetition bound",
-                              "%s above %d is not rejected: jmpend[%d] and the unrolling are "
-                              "unbounded" % (fld, NREPS, NREPS))
+        ctx.ok("rnode_emit", "jmpend pushes <= %d on every admitted pair" % NREPS)
+    neg = sorted(c_ for c_ in adm if c_[0] < 0 or c_[1] < -1)
+    big = sorted(c_ for c_ in adm if c_[0] > NREPS or c_[1] > NREPS)
+    if neg and not bad:
+        ctx.violation("rnode_atom", "repetition count cannot be negative",
+                      "the pattern %s is accepted with the counts {%d,%d}: the digits are accumulated "
+                      "without bound and wrap" % (adm[neg[0]].decode("latin-1"), neg[0][0], neg[0][1]))
+    if big and not jm_bad and not bad:
+        ctx.violation("rnode_atom", "repetition bound",
+                      "the pattern %s is accepted with {%d,%d}, above the limit %d: jmpend[%d] and the "
+                      "unrolling are unbounded" % (adm[big[0]].decode("latin-1"), big[0][0], big[0][1], NREPS, NREPS))
     # regcomp adds its own instructions
     rc = prog.func("regcomp", file="regex.c")
     own = len(list(rc.calls("re_insert")))
@@ -388,7 +304,12 @@ def rule_R2(ctx):
     prog = ctx.prog
     f = prog.func("re_rec", file="regex.c")
     cfg = f.cfg
+    # the recursion: direct calls, or calls of a helper of the file that calls re_rec back
     recs = list(f.calls("re_rec"))
+    for c in f.calls():
+        g = prog.resolve(f, c["fn"]) if c.get("fn") else None
+        if g is not None and g is not f and g.file == f.file and prog.cg.reaches(g, ["re_rec"], stop=set()):
+            recs.append(c)
     if not recs:
         raise AnalysisBroken("re_rec is not recursive any more")
     guard = None
@@ -514,65 +435,75 @@ def rule_R3(ctx):
 
 
 def rule_R7(ctx):
-    ctx.begin("R7", floor=2, what="marks beyond the limit")
+    """Every access to the mark array of the matching state, in any function of regex.c, has
+    0 <= index < LEN(mark) proved on every path to it (path prover: guards, loop tests, flag
+    locals, `?:` arms)."""
+    ctx.begin("R7", floor=2, what="accesses to the mark array of the matching state")
+    from ..bounds import path_states
+    from ..lin import prove_le, PROVEN, linearize, cmp_constraints
+    from .. import lin as _lin
     prog = ctx.prog
-    f = prog.func("re_rec", file="regex.c")
     rs = prog.record("rstate")
     N = [x for x in rs["fields"] if x["name"] == "mark"][0]["arr_n"]
     n = 0
-    for s, lv, op, rhs in stores(f.body):
-        lf = lv_field(lv)
-        if lf and lf[0] == "rstate" and lf[1] == "mark" and lf[2]:
+    for f in prog.funcs.values():
+        if f.file != "regex.c":
+            continue
+        for x in f.walk():
+            if x["k"] != "sub" or strip_casts(x["base"])["k"] != "member" or strip_casts(x["base"])["field"] != "mark":
+                continue
+            lf = lv_field(x)
+            if not lf or lf[0] != "rstate":
+                continue
             n += 1
-            idx = key(strip_casts(lv["idx"]))
-            K = None
-            for cid, t in f.cfg.facts_at(s["id"]):
-                c = f.nodes.get(cid)
-                if c is not None and c["k"] == "bin" and key(c["l"]) == idx and cval(c["r"]) is not None:
-                    if c["op"] == "<" and t:
-                        K = cval(c["r"])
-                    if c["op"] == "<=" and t:
-                        K = cval(c["r"]) + 1
-            if K is not None and K <= N:
-                ctx.ok("re_rec", "mark store guarded by index < %d <= %d" % (K, N), loc=f.loc(s))
-            else:
-                ctx.violation("re_rec", "mark store bounded",
-                              "rs->mark[%s] (of %d) is stored under guard %s" % (idx, N, K), f.loc(s))
-    if not n:
-        raise AnalysisBroken("re_rec: store into rs->mark not found")
-    g = prog.func("re_recmatch", file="regex.c")
-    bad = None
-    nr = 0
-    for x in g.walk():
-        if x["k"] == "sub" and x["base"]["k"] == "member" and x["base"]["field"] == "mark":
-            nr += 1
-            idx = x["idx"]
-            # guarded by  i*2 < LEN(mark)  (cond arm) or loop bound i < LEN(mark)
-            okg = False
-            for anc in g.ancestors(x["id"]):
-                if anc["k"] == "cond":
-                    c = anc["c"]
-                    if c["k"] == "bin" and c["op"] == "<" and cval(c["r"]) is not None and cval(c["r"]) <= N:
-                        kc, ki = key(c["l"]), key(strip_casts(idx))
-                        if ki == kc or ki == "(%s+1)" % kc:
-                            # i*2+1 < N follows from i*2 < N only because N is even
-                            if ki == kc or N % 2 == 0:
-                                okg = True
-                if anc["k"] == "for":
-                    for cj in flatten_and(anc["c"]):
-                        if cj["k"] == "bin" and cj["op"] == "<" and key(cj["l"]) == key(strip_casts(idx)) \
-                                and cval(cj["r"]) is not None and cval(cj["r"]) <= N:
-                            okg = True
-            if not okg:
-                bad = x
-    if not nr:
-        raise AnalysisBroken("re_recmatch does not read rs->mark")
-    if bad is None:
-        ctx.ok("re_recmatch", "%d reads/writes of rs->mark below LEN(mark) = %d" % (nr, N))
-    else:
-        ctx.violation("re_recmatch", "mark access bounded",
-                      "rs->mark[%s] is accessed without an index test against %d" % (key(bad["idx"]), N),
-                      g.loc(bad))
+            # the event to stand at: the subscript itself, or the statement that holds it
+            tgt = x
+            if f.cfg.pos(tgt) is None:
+                for anc in f.ancestors(x["id"]):
+                    if f.cfg.pos(anc) is not None:
+                        tgt = anc
+                        break
+            try:
+                sts = path_states(f, tgt["id"], max_paths=3000)
+            except OverflowError:
+                ctx.inconclusive(f.name, "mark access bounded", "too many paths", f.loc(x))
+                continue
+            bad = und = None
+            for subst, hyps, items in sts:
+                byid = {f.nodes[y[1]]["id"]: y[2] for y in items if y[0] == "br"}
+                # inside a `?:` arm the arm's condition holds
+                extra = []
+                cur = x
+                for anc in f.ancestors(x["id"]):
+                    if anc["k"] == "cond":
+                        if any(z["id"] == cur["id"] for z in walk(anc["t"])):
+                            extra += cmp_constraints(anc["c"], True, subst)
+                        elif any(z["id"] == cur["id"] for z in walk(anc["f"])):
+                            extra += cmp_constraints(anc["c"], False, subst)
+                    cur = anc
+                idx = subst["__linfn__"](strip_casts(x["idx"]))
+                if idx is None:
+                    und = "index not linear"
+                    continue
+                hy = hyps + extra
+                a = prove_le(Lin(k=0), idx, hy + [Lin({a_: 1}) for a_ in idx.c if a_.isidentifier()
+                                                  and False])
+                b = prove_le(idx + Lin(k=1), Lin(k=N), hy)
+                if b != PROVEN:
+                    if "__havoc__" in subst or "__callhavoc__" in subst:
+                        und = b
+                    else:
+                        bad = (b, items)
+            if bad:
+                ctx.violation(f.name, "mark access bounded",
+                              "rs->mark[%s] (of %d) is accessed without the index being shown < %d (%s)" % (
+                                  key(x["idx"]), N, N, bad[0]), f.loc(x))
+            elif und:
+                ctx.inconclusive(f.name, "mark access bounded", "rs->mark[%s]: %s" % (key(x["idx"]), und), f.loc(x))
+            elif sts:
+                ctx.ok(f.name, "rs->mark[%s] < %d on all %d paths" % (key(x["idx"]), N, len(sts)), loc=f.loc(x))
+    if n < 2:
+        raise AnalysisBroken("only %d accesses to the mark array" % n)
 
 
 def rule_R8(ctx):
@@ -654,21 +585,58 @@ def rule_R8(ctx):
     else:
         ctx.ok("ratom_match", "start <= rs->s <= end of subject and no over-read in %d atom x subject cases" % n_eval)
     # marks are only ever rs->s - rs->o
-    rr = prog.func("re_rec", file="regex.c")
-    for n, lv, op, rhs in stores(rr.body):
-        lf = lv_field(lv)
-        if lf and lf[1] == "mark" and lf[2]:
-            if key(strip_casts(rhs)) in ("(rs->s-rs->o)",):
-                ctx.ok("re_rec", "a mark is the current offset rs->s - rs->o", loc=rr.loc(n))
-            else:
-                ctx.violation("re_rec", "mark value", "a mark is stored as %s" % key(rhs), rr.loc(n))
-    # regexec stops its scan at the terminator
+    for rr in prog.funcs.values():
+        if rr.file != "regex.c":
+            continue
+        for n, lv, op, rhs in stores(rr.body):
+            lf = lv_field(lv)
+            if lf and lf[0] == "rstate" and lf[1] == "mark" and lf[2]:
+                r_ = strip_casts(rhs)
+                good = r_["k"] == "bin" and r_["op"] == "-" and \
+                    strip_casts(r_["l"])["k"] == "member" and strip_casts(r_["l"])["field"] == "s" and \
+                    strip_casts(r_["r"])["k"] == "member" and strip_casts(r_["r"])["field"] == "o" and \
+                    key(strip_casts(r_["l"])["base"]) == key(strip_casts(r_["r"])["base"])
+                if cval(r_) is not None and cval(r_) < 0:
+                    continue                      # resetting a mark to `unset`
+                if good:
+                    ctx.ok(rr.name, "a mark is the current offset s - o of the state", loc=rr.loc(n))
+                else:
+                    ctx.violation(rr.name, "mark value", "a mark is stored as %s" % key(rhs), rr.loc(n))
+    # regexec's scan over start positions ends at the terminator: evaluated abstractly with
+    # every attempt failing, on all subjects up to 3 bytes incl. truncated sequences
     rx = prog.func("regexec", file="regex.c")
-    lp = [x for x in rx.walk() if x["k"] in ("while", "for")]
-    if lp and any(key(cj) in ("(*o)", "(*s)") for cj in flatten_and(lp[0]["c"])):
-        ctx.ok("regexec", "scan stops at the terminator")
+    n_scan = 0
+    scan_bad = None
+    for L in range(0, 4):
+        for combo in itertools.product([0x61, 0x0a, 0xc3, 0xa9, 0xf0], repeat=L):
+            subj = tuple(combo) + (0,)
+            starts = []
+
+            def h_match(ip, fn, e, args, env, starts=starts):
+                st_ = args[1]
+                cur = st_.get("s") if isinstance(st_, dict) else None
+                starts.append(cur.off if isinstance(cur, Ptr) else None)
+                return 1
+            preg = {"__deref__": {"flg": 0, "p": OPAQUE, "n": 0}}
+            try:
+                Interp(prog, hooks={"re_recmatch": h_match}).call(rx, [preg, Ptr(subj), 0, OPAQUE, 0])
+            except OverRead as e:
+                scan_bad = scan_bad or ("reads past the terminator of %r: %s" % (bytes(subj[:-1]), e))
+                continue
+            except Unsupported as e:
+                if str(e) in ("loop bound", "step limit"):
+                    scan_bad = scan_bad or ("never leaves the scan loop on %r" % bytes(subj[:-1]))
+                    continue
+                raise AnalysisBroken("regexec not evaluable: %s" % e)
+            n_scan += 1
+            if any(o is None or o > L for o in starts):
+                scan_bad = scan_bad or ("starts an attempt beyond the end of %r" % bytes(subj[:-1]))
+    if scan_bad:
+        ctx.violation("regexec", "scan stops at the terminator", "the scan %s" % scan_bad)
     else:
-        ctx.violation("regexec", "scan stops at the terminator", "loop condition %s" % (key(lp[0]["c"]) if lp else None))
+        ctx.ok("regexec", "the scan over start positions ends at the terminator on %d subjects "
+               "(attempts all failing)" % n_scan)
+
 
 
 def rule_R10(ctx):
@@ -762,29 +730,23 @@ def rule_R10(ctx):
             ctx.ok("regcomp", "%s only when rnode_count() < %d (not clamped)" % (c.get("fn"), capc), loc=rc.loc(c))
     # (c) no int overflow inside rnode_count with children at the cap
     kinds = _rn_kinds(prog)
-    atom = prog.func("rnode_atom", file="regex.c")
-    rng, rejects = _domain(prog)
     NREPS = None
     for n in prog.func("rnode_emit", file="regex.c").walk():
         if n["k"] == "var" and n["name"] == "jmpend":
             NREPS = n.get("arr_n")
     if NREPS is None:
         raise AnalysisBroken("rnode_emit: jmpend array not found")
-    vals = [-1, 0, 1, 2, NREPS // 2, NREPS - 1, NREPS]
+    vals = [0, 1, 2, NREPS // 2, NREPS - 1, NREPS, NREPS + 1]
     if ctx.tier == "thorough":
-        vals = list(range(-1, NREPS + 1))
+        vals = list(range(0, NREPS + 2))
+    adm = admitted_cells(prog, vals)
     n_cells = 0
     ovf = None
 
     def h_count(ip, fn, e, args, env):
         return capc
-    for mn in vals:
-        for mx in vals:
-            try:
-                if mn < 0 or _eval_reject(prog, atom, rejects, mn, mx):
-                    continue
-            except Unsupported as e:
-                raise AnalysisBroken("rejection test not evaluable: %s" % e)
+    for mn, mx in sorted(adm):
+        if True:
             for rn in kinds:
                 n_cells += 1
                 ip = Interp(prog, hooks={"rnode_count": h_count}, int_overflow=True,
